@@ -88,6 +88,11 @@ CLAIMED = {
             "TLC proves on the reference step machine that inference terminates (strictly decreasing length, eventual fixed point) and judges the real function's "
             "chains of non-recursive applications and its recursive result: each step must be the input or an embedded target, the recursive result the limit and a fixed point.",
             "Trusted: TLC; candidate set Embedded() in C15.tla; time is not modelled (RecursionError / 5 s timeout / step budget instead)."),
+    "C16": ("DESIGN.md section 4 / C16",
+            "option lattice {0,1}^4 as a TLA+ state machine (one action per relaxation) with a reference acceptance, monotonicity as an action property checked by TLC; candidates and texts enumerated and rendered by TLC, replayed into is_url (16 option vectors, plain and padded) and urls_from_text; TLC trace validation of the implications and of every yielded item",
+            "TLC checks monotonicity of the reference acceptance along every relaxation step, and judges the real is_url's 16 answers per candidate (32 covering implications, "
+            "strip-invariance, TLD clause) and every item urls_from_text yields (non-empty, substring in order, no surrounding whitespace, accepted by is_url).",
+            "Trusted: TLC; is_url's verdict on yielded items is logged from the real is_url (the property refers to it); TLD list is data."),
     "C18": ("DESIGN.md section 4 / C18",
             "Member(host, domains) and the path predicates defined in TLA+; TLC checks membership stability under leading labels / glued labels / foreign suffixes for every listed domain and derives the host universe; hosts x paths x decoy texts x 5 URL forms replayed into the 7 site predicates and 4 simple predicates; TLC trace validation (form-independent, true-iff-member, decoy-independent ...)",
             "Every listed site domain (documented patterns, bundled YouTube and shortener lists) and its look-alikes are run through the predicates in five forms with decoy "
